@@ -102,10 +102,10 @@ def patch_path(p):
     return np.asarray(path.vertices, float), (None if path.codes is None else np.asarray(path.codes))
 
 
-def cut_path(verts, codes):
+def cut_path(verts, codes, join_tol=VERTEX_TOL):
     """What the path draws, as a list of
          ("move", P) | ("line", P0, P1) | ("arc", P0, ctrl[(3m, 2)]) | ("bad", reason).
-    A LINETO / CLOSEPOLY of length <= VERTEX_TOL is a join, not a piece."""
+    A LINETO / CLOSEPOLY of length <= join_tol is a join, not a piece."""
     n = len(verts)
     if codes is None:
         codes = np.array([MOVETO] + [LINETO] * (n - 1))
@@ -127,7 +127,7 @@ def cut_path(verts, codes):
             if not np.isfinite(tgt).all():
                 out.append(("bad", "non-finite vertex"))
                 return out
-            if np.abs(tgt - pen).max() > VERTEX_TOL:
+            if np.abs(tgt - pen).max() > join_tol:
                 out.append(("line", np.array(pen, float), np.array(tgt, float)))
             pen = tgt
             i += 1
@@ -244,6 +244,35 @@ def outline_events(model, geom, closed, verts, codes, ideal=None):
     return evs
 
 
+def structure_events(vc, verts, codes):
+    """events of an outline whose vertices are only NAMED (vc: their model coordinates), no measurement of arcs: for
+    objects too small for exact 32-bit circles.  Tolerances are relative to the shortest edge."""
+    vc = np.asarray(vc, float)
+    el = np.linalg.norm(vc - np.roll(vc, -1, axis=0), axis=1).min()
+    # relative to the shortest edge; not below 1e-7 (the half-plane circle of an edge is derived from half-plane coordinates
+    # of ideal points: absolute noise 1e-8, see conditioning()), never above 5% of the shortest edge
+    tol = min(0.05 * el, max(1e-3 * el, 1e-7))
+
+    def vid(pt):
+        d = np.abs(vc - pt[None, :]).max(axis=1)
+        i = int(np.argmin(d))
+        return i + 1 if d[i] <= tol else 0
+    evs = []
+    for pc in cut_path(verts, codes, join_tol=tol):
+        if pc[0] == "move":
+            evs.append(dict(op="move", at=vid(pc[1])))
+        elif pc[0] == "line":
+            a, b = vid(pc[1]), vid(pc[2])
+            if a and a == b:
+                continue
+            evs.append(dict(op="edge", kind="straight", first=a, last=b))
+        elif pc[0] == "arc":
+            evs.append(dict(op="edge", kind="arc", first=vid(pc[1]), last=vid(pc[2][-1]), devn=0, devc=0, inside=True, minor=True))
+        else:
+            evs.append(dict(op="bad", why=pc[1]))
+    return evs
+
+
 # ----------------------------------------------------------------------------------------
 # trace validation by TLC
 # ----------------------------------------------------------------------------------------
@@ -338,9 +367,10 @@ def validate_and_report(run, traces, meta, threshold, name="DrawPathTrace"):
             matched = rej2.get(j) or 0
             tr = traces[i]
             clause = explain(tr, matched, meta[i].get("expect"))
-            key = "%s:%s:%s:%s:%s" % (meta[i].get("what", "outline"), tr["model"], word_key(tr["word"]), json.dumps(tr["verts"], separators=(",", ":")), clause)
+            key = "%s:%s:%s:%s:%s" % (meta[i].get("what", "outline"), tr["model"], word_key(tr["word"]) if not tr.get("shrink") else "shrink=%d" % tr["shrink"],
+                                      json.dumps(tr["verts"], separators=(",", ":")), clause)
             run.violation(key=key, clause=clause,
-                          detail=dict(model=tr["model"], word=tr["word"], verts=tr["verts"], closed=tr["closed"], matched_events=matched,
+                          detail=dict(model=tr["model"], word=tr["word"], shrink=tr.get("shrink", 0), verts=tr["verts"], closed=tr["closed"], matched_events=matched,
                                       rejected_event=(tr["events"][matched] if matched < len(tr["events"]) else "outline ends after %d of the pieces" % matched),
                                       events=tr["events"][:12], **{k: v for k, v in meta[i].items() if k not in ("what", "expect")}))
     return n_ok, len(rejected)
